@@ -187,3 +187,44 @@ pub fn self_test(scratch: &Path, abi: i32) -> Result<(), String> {
     }
     Ok(())
 }
+
+#[cfg(test)]
+mod tests {
+    use super::*;
+    use std::os::unix::process::CommandExt;
+
+    /// End-to-end: the real CLI, confined to a temp root, is asked (through the confirmed
+    /// --preserve-paths defect) to write to an absolute path under /tmp outside that root.
+    /// The kernel must deny it.  Worst case without confinement: one file under /tmp, removed here.
+    #[test]
+    fn cli_cannot_write_outside_its_root() {
+        let cli = std::env::var("VERIF_CLI")
+            .unwrap_or_else(|_| "/verif/target/repo/debug/warcraft-rs".into());
+        let abi = abi().expect("landlock");
+        let td = tempfile::Builder::new().prefix("c11-ll-").tempdir_in("/dev/shm").unwrap();
+        let root = td.path().join("root");
+        std::fs::create_dir_all(root.join("OUT")).unwrap();
+        let probe = format!("/tmp/c11-landlock-probe-{}", std::process::id());
+        let name = format!("{}\\x.txt", probe.replace('/', "\\"));
+        wow_mpq::ArchiveBuilder::new()
+            .add_file_data(b"probe".to_vec(), &name)
+            .add_file_data(b"ok".to_vec(), "inside.txt")
+            .build(root.join("a.mpq"))
+            .unwrap();
+        let rs = ruleset_for(&root, abi).unwrap();
+        let fd = rs.as_raw_fd();
+        let mut cmd = std::process::Command::new(cli);
+        cmd.args(["mpq", "extract", "a.mpq", "-o", "OUT", "--preserve-paths", "--", "inside.txt", &name])
+            .current_dir(&root);
+        unsafe {
+            cmd.pre_exec(move || restrict_self(fd));
+        }
+        let out = cmd.output().unwrap();
+        let leaked = std::path::Path::new(&probe).exists();
+        let _ = std::fs::remove_dir_all(&probe);
+        let err = String::from_utf8_lossy(&out.stderr);
+        assert!(!leaked, "confined CLI created {probe}");
+        assert!(root.join("OUT/inside.txt").is_file(), "confined CLI could not write inside: {err}");
+        assert!(err.contains("Permission denied"), "expected EACCES, got: {err}");
+    }
+}
